@@ -14,6 +14,7 @@ import os
 from . import common
 from . import lib_deps as L
 from . import c13
+import time
 from .common import parallel_map
 
 RULE = ("cases = (declared graph as in C13 with extra tags, target product, recursive, check, force, products set up in "
@@ -35,6 +36,16 @@ def gen_graph(rng, wide=False):
     for p in g["products"]:
         if rng.random() < 0.2:
             p["tags"] = p["tags"] + ["beta"]
+    # the same version declared for a second flavor in the same stack, tagged there (also with tags the version does not
+    # carry for this flavor): nothing of the other flavor may be touched by a removal for this one
+    if rng.random() < 0.3:
+        taken = set()
+        for p in rng.sample(g["products"], min(len(g["products"]), rng.choice([1, 2, 3]))):
+            if p.get("notable") or p.get("missing"):
+                continue
+            tg = [t for t in rng.choice([["current"], ["current"], ["beta"], ["current", "beta"], []]) if (p["name"], t) not in taken]
+            taken |= {(p["name"], t) for t in tg}
+            p["also"] = {"flavor": "Linux64", "tags": tg}
     # a tag names one version per product
     seen = set()
     for p in g["products"]:
@@ -101,7 +112,7 @@ def run_impl(job):
         L.set_up_in_env(s, setup)
         if ro:
             L.readonly_database(s)
-        before, dbb = L.snapshot(s), L.db_listing(s)
+        before, dbb, otherb = L.snapshot(s), L.db_listing(s), L.db_listing(s, others=True)
         flags = (["-R"] if rec else []) + ([] if check else ["-N"]) + (["-F"] if force else [])
         if how == "version":
             args = ["remove"] + flags + [name, version]
@@ -110,14 +121,14 @@ def run_impl(job):
         else:
             args = ["remove", "-t", how[6:]]
         r = L.run_cli(args, record=())
-        after, dba = L.snapshot(s), L.db_listing(s)
+        after, dba, othera = L.snapshot(s), L.db_listing(s), L.db_listing(s, others=True)
         if r["error"] is None and r["rc"] == 0:
             outcome = "ok"
         elif r["error"] is None and r["rc"] == 2 and how.startswith("tag:"):
             outcome = "NoSuchTag"
         else:
             outcome = r["error"] or "rc=%s" % r["rc"]
-        return {"out": outcome, "before": before, "after": after, "dbb": dbb, "dba": dba}
+        return {"out": outcome, "before": before, "after": after, "dbb": dbb, "dba": dba, "otherb": otherb, "othera": othera}
     finally:
         common.rmtree(root)
 
@@ -140,6 +151,13 @@ def canon_model(a):
 
 def oracle(R, graph, case, io_, closures):
     name, version, rec, check, force, setup, ro, how = case
+    # whatever the command does for this flavor: declarations, tags and directories of another flavor stay as they were
+    if io_["othera"] != io_["otherb"]:
+        yield ("other_flavor_untouched", None, "other flavors before %s, after %s" % (io_["otherb"], io_["othera"]))
+    for path, h in io_["before"].items():
+        if path.startswith("Linux64/") and io_["after"].get(path) != h:
+            yield ("other_flavor_untouched", None, "%s was changed or deleted" % path)
+            break
     if how.startswith("untag:"):
         # the tag is taken off every product; no declaration, no directory, no other tag is touched
         t = how[6:]
@@ -164,6 +182,12 @@ def oracle(R, graph, case, io_, closures):
     top = (name, version, True)
     out = io_["out"]
     before, after = io_["before"], io_["after"]
+    # database files shared with another flavor legitimately survive (with that flavor's group only)
+    shared = set()
+    for x in io_["otherb"]["decl"]:
+        shared.add("ups_db/%s/%s.version" % (x[0], x[1]))
+    for x in io_["otherb"]["tags"]:
+        shared.add("ups_db/%s/%s.chain" % (x[0], x[1]))
     decl_b = {tuple(x) for x in io_["dbb"]["decl"]}
     decl_a = {tuple(x) for x in io_["dba"]["decl"]}
     listed, expanded = R.closure(top, ignore_j=True)                   # remove follows -j dependencies too
@@ -223,10 +247,10 @@ def oracle(R, graph, case, io_, closures):
             rr = R.reach(nodes, expanded)
             cyclic = any(any(b != a and b in rr[a] and a in rr.get(b, ()) for b in nodes) for a in nodes) or top in listed
             if check and unsetup_any:
-                yield ("terminates", "D32", "RecursionError from the in-use check (unsetupRequired inside a cycle)")
+                yield ("terminates", None, "RecursionError from the in-use check (unsetupRequired inside a cycle: D32, repaired)")
             elif rec and unsetup_any:
                 # also when the closure is cyclic: the model (which has the D33 repair) must reproduce the outcome
-                yield ("terminates", "D32", "RecursionError: unsetupRequired line met while listing direct dependencies")
+                yield ("terminates", None, "RecursionError: unsetupRequired line met while listing direct dependencies (D32, repaired)")
             elif rec and cyclic:
                 yield ("terminates", None, "RecursionError: recursive remove over a cyclic dependency closure (D33, repaired)")
             else:
@@ -259,7 +283,11 @@ def oracle(R, graph, case, io_, closures):
         elif parts[0] == "ups_db" and len(parts) == 3 and parts[2].endswith(".chain"):
             tv = [t for t in tags_b if t[0] == parts[1] and t[1] == parts[2][:-len(".chain")]]
             owner = (parts[1], tv[0][2]) if tv else None
-        if owner in gone:
+        if path in shared:
+            if path not in after:
+                yield ("other_flavor_untouched", None, "%s, which also holds a record of another flavor, is gone" % path)
+                return
+        elif owner in gone:
             if path in after:
                 yield ("removed_completely", None, "%s survives the removal of %s" % (path, owner))
                 return
@@ -334,6 +362,11 @@ def evaluate(ctx, graphs, per_graph=18, all_cases=False):
                 others = [k for k in R.decl if k != (case[0], case[1])]
                 users_of[top] = (any(top in closures((k[0], k[1], True))[0] for k in others),
                                  any(mine & closures((k[0], k[1], True))[0] for k in others))
+            tp = R.decl.get((case[0], case[1]))
+            if tp and tp.get("also") and io_["out"] == "ok":
+                ctx.hist("target:removed_with_second_flavor")
+                if any(t not in tp.get("tags", []) for t in tp["also"]["tags"]):
+                    ctx.hist("target:removed_with_tag_of_other_flavor_only")
             if users_of[top][0]:
                 ctx.hist("target:has_user")
             if nontriv:
@@ -362,35 +395,48 @@ def corpus_items():
     return out
 
 
+FLOORS = ("target:has_user", "target:has_dependency", "target:shares_dependency", "target:removed_with_second_flavor",
+          "target:removed_with_tag_of_other_flavor_only")
+
+
 def run(ctx):
+    """The ordinary quick portion first (corpus, a slice of the exhaustive family, the generated stream with its floors);
+    the enlarged budget (thorough tier, or a quick run escalated because the mirrored source changed) after it — see c13.run."""
+    big = ctx.tier == "thorough" or ctx.escalated
     cg = corpus_items()
     ctx.hist("corpus", len(cg))
     if cg:
         evaluate(ctx, cg, all_cases=True)
     # exhaustive small family (C13's, two candidate lines per table: 256 graphs), every target and flag combination
     total = c13.enum_count(2)
-    if ctx.tier == "thorough" or ctx.escalated:
-        ids = list(range(total))
-        ctx.note("exhaustive family: all %d graphs x every target x recursive x check x force" % total)
-    else:
-        ids = [(ctx.seed * 97 + k * 37) % total for k in range(6)]
-    for at in range(0, len(ids), 32):
-        if ctx.out_of_time():
-            break
-        evaluate(ctx, [c13.enum_graph(i, 2) for i in ids[at:at + 32]], all_cases=True)
-    n = ctx.n(45, 5000)
+    ids = [(ctx.seed * 97 + k * 37) % total for k in range(6)]
+    evaluate(ctx, [c13.enum_graph(i, 2) for i in ids], all_cases=True)
+    n = 45
     done = 0
-    while done < n and not ctx.out_of_time():
-        k = min(40, n - done)
+    soft = (lambda: time.time() - ctx.t0 > 110) if not big else (lambda: False)
+    while done < n and not ctx.out_of_time() and not soft():       # a loaded machine: fewer cases rather than a late verdict
+        k = min(15, n - done)
         evaluate(ctx, [gen_graph(ctx.rng, wide=ctx.tier == "thorough") for _ in range(k)])
         done += k
     if ctx.evaluations and ctx.distinct_nontrivial < ctx.evaluations * 0.3:
         raise common.InfraError("degenerate distribution: %d non-trivial of %d" % (ctx.distinct_nontrivial, ctx.evaluations))
     h = ctx.histogram
-    if not ctx.escalated and n >= 40:
-        for need in ("target:has_user", "target:has_dependency", "target:shares_dependency"):
+    if done >= 30:
+        for need in FLOORS:
             if not h.get(need):
                 raise common.InfraError("degenerate distribution: no case with %s" % need)
+    if not big:
+        return
+    ctx.note("exhaustive family: all %d graphs x every target x recursive x check x force, interleaved with the generated stream" % total)
+    rest = [i for i in range(total) if i not in set(ids)]
+    at, more = 0, 0
+    while (at < len(rest) or more < 4955) and not ctx.out_of_time():
+        if more < 4955:
+            evaluate(ctx, [gen_graph(ctx.rng, wide=ctx.tier == "thorough") for _ in range(40)])
+            more += 40
+        if at < len(rest) and not ctx.out_of_time():
+            evaluate(ctx, [c13.enum_graph(i, 2) for i in rest[at:at + 16]], all_cases=True)
+            at += 16
 
 
 def replay(ctx, rp):
